@@ -19,7 +19,7 @@ EXPLANATION = ("(a) index-generic, ANY length: the element-wise window generator
 BOUNDS = {
     "quick": "(a) any N (index-generic) for rectangle, blackman, gaussian, cosine, lanczos, bartlett_hann, nuttall, blackman_nuttall, blackman_harris, bohman, "
              "flattop, riesz, riemann, poisson, cauchy; (b) all 29 names, N in {1, 2, 7, 8}; (c) arbitrary w of length <= 4 (ENBW), Window class N in {7, 8}; (d) n in {2, 3}, NFFT=4, all sequences of <= 2 read operations that start with compute_response",
-    "thorough": "(b) N in 1..16 and 64; (c) length <= 6; (d) n <= 4",
+    "thorough": "(b) N in 1..33 and 64, 127, 128, 512, 1001; (c) length <= 6; (d) n <= 4",
 }
 ASSUMPTIONS = ["floats modelled as exact reals; published window coefficients enter as exact rationals of their doubles",
                "cos/sin/exp/sinc uninterpreted with: cos even and 2pi-periodic, sin odd, sinc even, special values at multiples of pi/2, "
@@ -491,7 +491,7 @@ def cases(tier, seed):
     for name in ('blackman', 'nuttall', 'blackman_nuttall', 'blackman_harris', 'cosine', 'riesz', 'bartlett_hann', 'rectangle'):
         out.append(Case("max<=1:any-N:%s" % name, case_max, dict(name=name), timeout=120 if q else 600, max_paths=8, feas_timeout=3))
     for name in ALL_WINDOWS:
-        for N in ((1, 2, 7, 8) if q else list(range(1, 17)) + [64]):
+        for N in ((1, 2, 7, 8) if q else list(range(1, 34)) + [64, 127, 128, 512, 1001]):
             out.append(Case("factory:%s:N=%d" % (name, N), case_factory, dict(name=name, N=N), timeout=30))
     for n in ((1, 2, 3, 4) if q else (1, 2, 3, 4, 5, 6)):
         out.append(Case("enbw:arbitrary-window:n=%d" % n, case_enbw, dict(n=n), timeout=120 if q else 900, feas_timeout=3))
